@@ -497,7 +497,7 @@ def r6(R, tus, fns):
     for row in frozen["sites"]:
         k = (row["function"], row["array"], row["access"], tuple(row.get("conds") or ()))
         sites[k] = dict(n=row["n"], why=row["why"], shown=row.get("shown", ""))
-    guarded3 = set((row["function"], row["array"], row["access"]) for row in frozen.get("guarded", []))
+    guarded3 = {(row["function"], row["array"], row["access"]): tuple(row.get("conds") or ()) for row in frozen.get("guarded", [])}
     res = bounds.run_all(tus, ext, table=table, domains=domains, trusted=c20_table.TRUSTED, sites=sites, guarded=guarded3)
     tot = collections.Counter()
     used_keys = set()
